@@ -429,3 +429,11 @@ package retrypolicy
 //@   ensures [C02.exceeded.unwraps_last_error+C10.exceeded.unwraps_last_error] e.LastError != nil ==> result == e.LastError
 //@   havoc
 //@   modifies *
+
+// WithDefaults is Builder().Build(): two retries, no delay, no budget
+//@ func WithDefaults
+//@   builder
+//@   dyntype RetryPolicyBuilder *config only
+//@   let tc := asref(result, *retryPolicy).config
+//@   ensures [C02.with_defaults+C13.with_defaults] result != nil && typeis(result, *retryPolicy) && tc != nil && tc.maxRetries == 2 && tc.maxDuration == 0 && tc.maxDelay == 0 && tc.delayMin == 0 && tc.delayMax == 0 && tc.jitter == 0 && tc.jitterFactor == 0 && !tc.returnLastFailure && tc.Delay == 0 && tc.DelayFunc == nil && len(tc.failureConditions) == 0 && len(tc.abortConditions) == 0
+//@   modifies nothing
